@@ -3,7 +3,7 @@ menpo/transform/compositions.py TRANSLATED from the source text of the current w
 (`Generated/C01Src.lean`) on every run; `GenProps/C01Src*.lean` prove every translated definition equal to the
 hand-written Core definition the C01 theorems are about (the plan of the operation executed through the funnel).
 
-harness/py2lean2.py + py2lean2w.py + py2lean2c.py are the translator; this file is the C01 vocabulary: which numpy /
+harness/py2lean2.py + py2lean2w.py + py2lean2c.py + py2lean2n.py are the translator; this file is the C01 vocabulary: which numpy /
 menpo expression stands for which operation of `Core/C01Src.lean`.  Conventions:
   * an image object is `Obj` (class tag, pixels = shape + list of channels, mask, landmark points, path); a method of
     Image is translated once and works on the three classes; `self.method(...)` of a method that the subclasses
@@ -20,7 +20,7 @@ menpo expression stands for which operation of `Core/C01Src.lean`.  Conventions:
 """
 import os
 
-from . import py2lean2c as P
+from . import py2lean2n as P
 
 GEN_REL = os.path.join("MenpoModel", "Generated", "C01Src.lean")
 GEN_REL3 = os.path.join("MenpoModel", "Generated", "C01Src3.lean")
@@ -149,7 +149,7 @@ class Fn:
 
     def __init__(self, key, fn, lean, params, ctx=(), ret_type="Ret", monadic=True, ret=None, expr=(), stmt=(),
                  skip=(), allow_unused=(), coerce=None, proj=None, end=None, types=None, yield_init="[]", extra_names=None,
-                 binop_extra=None, iter_names=None):
+                 binop_extra=None, iter_names=None, alias=()):
         self.key, self.fn, self.lean, self.params, self.ctx = key, fn, lean, list(params), list(ctx)
         self.ret_type, self.monadic = ret_type, monadic
         self.ret = ret if ret is not None else ("(Except.ok (ToRet.toRet {e}))" if ret_type == "Ret" else
@@ -163,6 +163,7 @@ class Fn:
         self.extra_names = dict(extra_names or {})
         self.binop_extra = dict(binop_extra or {})
         self.iter_names = dict(iter_names or {})
+        self.alias = list(alias)
         if proj is None and ret_type == "Ret" and "return_transform" in self.params:
             proj = PROJ
         self.callee = P.Callee(fn, lean, self.params[:], ctx=self.ctx, coerce=coerce, monadic=monadic, proj=proj)
@@ -287,8 +288,11 @@ def build():
                                               "return_transform"], ctx=["spl"],
         expr=[("zip($a, $b)", "(vzip {a} {b})"), ("slice($a, $b)", "({a}, {b})"),
               ("$o.pixels[(slice(None),) + $b]", "(pixelBlock {o} {b})")],
-        stmt=[("cropped.pixels[...] = $v", "=result", "(Ret.setPixels {result} {v})")],
-        skip=["cropped = result[0] if return_transform else result"],
+        stmt=[("$c.pixels[...] = $v", "c", "(setPixelValues {c} {v})")],
+        # `result` is what warp_to_shape returned (the image, or (image, transform)); seen as an image it is `Ret.obj`:
+        # `result[0]` when the transform was asked for, `result` itself when not — both are VIEWS of `result`
+        alias=[("$r[0]", "r", "(Ret.obj {y})", "(Ret.withObj {y} {v})"),
+               ("result", "=result", "(Ret.obj {y})", "(Ret.withObj {y} {v})")],
         ret="(Except.ok {e})")
     add("Image.crop_to_pointcloud", Image.crop_to_pointcloud, "genCropToPointcloud",
         ["self", "pointcloud", "boundary", "constrain_to_boundary", "return_transform"], ctx=["spl"])
@@ -416,7 +420,7 @@ def rules_for(fn, calls):
     names = {k: v for k, v in fn.extra_names.items() if v is not None}
     binop = dict(BINOP)
     binop.update(fn.binop_extra)
-    r = P.Rules2C(calls=calls, catch=CATCH, iter_wrap="(PyIter.iter {x})", yield_init=fn.yield_init,
+    r = P.Rules2N(alias=fn.alias, inline_modules=("menpo.",), calls=calls, catch=CATCH, iter_wrap="(PyIter.iter {x})", yield_init=fn.yield_init,
                   expr=[(k, v) for k, v in fn.iter_names.items()] + fn.expr + COMMON, stmt=fn.stmt + COMMON_STMT,
                   skip=fn.skip, names=names, ret=fn.ret,
                   raise_=None, raise_by=getattr(fn, "raise_by", RAISE), end=fn.end, binop=binop, unwrap=UNWRAP)
@@ -442,7 +446,7 @@ def items(keys=None):
             for k, v in fn.extra_names.items():
                 if v is None:
                     raise P.Untranslatable("%s is live in this environment: that path is not modelled" % k)
-            tr = P.Translator2C(rules_for(fn, calls))
+            tr = P.Translator2N(rules_for(fn, calls))
             args = {p: lname(p) for p in fn.params}
             return tr.function(fn.fn, args, ind=1, allow_unused=fn.allow_unused)
         out.append((fn.signature(), thunk, "  " + stub_of(fn)))
